@@ -8,7 +8,7 @@ REPO = os.environ.get("SELFTEST_BASE", "/repo")
 SCR = "/tmp/rw/cost_mut"
 BL = "src/pygom/loss/base_loss.py"
 LT = "src/pygom/loss/loss_type.py"
-FIXES = ["C07-index-order.diff", "C07-target-state-index.diff", "C07-gamma-diff_loss-ravel.diff", "C07-weight-vector-single-state.diff"]
+FIXES = ["C07-index-order.diff", "C07-target-state-index.diff", "C07-weight-vector-single-state.diff"]
 # (name, property, file, old, new)   -- old must occur exactly `count` times
 MUT = [
  ("C06 solution[:, sorted(idx)]", "C06", BL, b"            return solution[:, self._stateIndex]", b"            return solution[:, sorted(self._stateIndex)]", 1),
@@ -34,7 +34,10 @@ def fresh():
     r = sh("git", "-C", REPO, "worktree", "add", "--detach", SCR)
     assert r.returncode == 0, r.stderr
     for f in FIXES:
-        r = sh("git", "apply", "--binary", os.path.join(VERIF, "proposed_fixes", f), cwd=SCR)
+        path = os.path.join(VERIF, "proposed_fixes", f)
+        if sh("git", "apply", "--binary", "-R", "--check", path, cwd=SCR).returncode == 0:
+            continue                                  # already in the tree (applied upstream as a fix: commit)
+        r = sh("git", "apply", "--binary", path, cwd=SCR)
         assert r.returncode == 0, (f, r.stderr)
 
 def main():
